@@ -25,10 +25,11 @@ StepLine(e)  ==
        LET st == e.strokes[i] IN
        /\ Report(e.case, StrokeObsFails(e.s, e.e, e.pts, st), [s |-> e.s, e |-> e.e, w |-> st[1], n |-> Len(st[2])])
        /\ DriftThick(e, st)
+StepLongLine(e) == e.ev = "longline" /\ Report(e.case, LongLineFails(e), [s |-> e.s, e |-> e.e, np |-> e.np])
 \* a library call of this case panicked: the property promises a result for every input of its domain
 StepPanic(e) == e.ev = "panic" /\ Report(e.case, {"library_call_panicked"}, [msg |-> e.msg, loc |-> e.loc])
 Next == /\ l <= NRec
-        /\ LET e == Rec[l] IN StepCase(e) \/ StepLine(e) \/ StepPanic(e)
+        /\ LET e == Rec[l] IN StepCase(e) \/ StepLine(e) \/ StepLongLine(e) \/ StepPanic(e)
         /\ l' = l + 1
 Spec == Init /\ [][Next]_l
 Done == IF TLCGet("stats").diameter = NRec + 1
